@@ -195,8 +195,8 @@ theorem step_inv (s s' : St) (l : Label) (h : step s l = some s') (inv : Inv s) 
         cases a <;> simp only [enabled, Bool.and_eq_true, beq_iff_eq, Bool.not_eq_true'] at he <;>
           simp only [upd] at hp hw ⊢
         case start =>
-          have hr0 := h0 (by simp [he]) (by split at hw <;> simpa using hw)
-          split <;> simpa using hr0
+          have hr0 := h0 (by simp [he]) (by (repeat' split at hw) <;> simpa using hw)
+          (repeat' split) <;> simpa using hr0
         case waitTag =>
           have hr0 := h0 (by simp [he.1.1]) he.2
           (repeat' split at hw) <;> (repeat' split at hp) <;> simp_all
@@ -214,7 +214,7 @@ theorem step_inv (s s' : St) (l : Label) (h : step s l = some s') (inv : Inv s) 
         cases a <;> simp only [enabled, Bool.and_eq_true, beq_iff_eq, Bool.not_eq_true'] at he <;>
           simp only [upd] at hw hk
         case start =>
-          have := inv.flushed j r hg (by split at hw <;> simpa using hw) k (by split at hk <;> simpa using hk)
+          have := inv.flushed j r hg (by (repeat' split at hw) <;> simpa using hw) k (by (repeat' split at hk) <;> simpa using hk)
           exact isDone_mono s s' k (hdone k) this
         case waitTag =>
           -- waited becomes true without waiting only when nothing was awaited
